@@ -476,22 +476,41 @@ def _r3(ctx, repo, A, wp, sl):
 def _r4(ctx, repo, A, wp, sl):
     ctx.rule("C15.R4", "poll interval stays within [0.0001, 0.04]: it starts at "
              "0.0001 and is only ever replaced by min(2*interval, 0.04)", floor=1)
+    # the polling interval: the variable re-bound from the back-off helper's result
+    ivar = "interval"
+    if sl is not None:
+        got_ = [dotted(s_.targets[0]) for s_ in ast.walk(wp.node) if isinstance(s_, ast.Assign)
+                and isinstance(s_.value, ast.Call) and dotted(s_.value.func) == sl.name
+                and not any(x is s_ for x in ast.walk(sl.node))]
+        if got_ and len(set(got_)) == 1 and got_[0]:
+            ivar = got_[0]
     asg = [s for s in ast.walk(wp.node) if isinstance(s, (ast.Assign, ast.AugAssign))
-           and any(dotted(t) == "interval" for t in
+           and any(dotted(t) == ivar for t in
                    (s.targets if isinstance(s, ast.Assign) else [s.target]))
            and not (sl is not None and any(x is s for x in ast.walk(sl.node)))]
     ctx.require(asg, "wait_pid: `interval` vanished")
-    init = [s for s in asg if isinstance(s, ast.Assign) and isinstance(s.value, ast.Constant)]
+
+    def cv(e):
+        # a literal, or a module-level constant of _psposix
+        if isinstance(e, ast.Constant):
+            return e.value
+        if isinstance(e, ast.Name):
+            vs_ = repo.mod("_psposix").assigns.get(e.id, [])
+            if len(vs_) == 1 and isinstance(vs_[0], ast.Constant):
+                return vs_[0].value
+        return None
+    init = [s for s in asg if isinstance(s, ast.Assign) and cv(s.value) is not None]
     probs = []
-    if len(init) != 1 or init[0].value.value != 0.0001:
+    if len(init) != 1 or cv(init[0].value) != 0.0001:
         probs.append("polling does not start at 0.0001 s: "
                      + ", ".join(norm_stmt(s) for s in init))
     for s in asg:
         if s in init:
             continue
         v = getattr(s, "value", None)
-        if isinstance(s, ast.Assign) and isinstance(v, ast.Call) and dotted(v.func) == "sleep" \
-                and len(v.args) == 1 and dotted(v.args[0]) == "interval":
+        if isinstance(s, ast.Assign) and isinstance(v, ast.Call) \
+                and dotted(v.func) == (sl.name if sl is not None else "sleep") \
+                and len(v.args) == 1 and dotted(v.args[0]) == ivar:
             continue
         probs.append(f"`{norm_stmt(s)}` updates the interval outside the back-off helper")
     if sl is None:
@@ -504,8 +523,8 @@ def _r4(ctx, repo, A, wp, sl):
             okr = False
             if isinstance(v, ast.Call) and dotted(v.func) in ("_min", "min") and len(v.args) == 2:
                 txt = {norm_stmt(a).replace(" ", "") for a in v.args}
-                caps = [a for a in v.args if isinstance(a, ast.Constant)]
-                if caps and caps[0].value == 0.04 and (f"{p}*2" in txt or f"2*{p}" in txt):
+                caps = [cv(a) for a in v.args if cv(a) is not None]
+                if caps and caps[0] == 0.04 and (f"{p}*2" in txt or f"2*{p}" in txt):
                     okr = True
             if not okr:
                 probs.append(f"back-off is `{norm_stmt(v)}`, not min(2*interval, 0.04)")
@@ -541,7 +560,7 @@ def _r5(ctx, repo, A, wp):
             continue
         if isinstance(n.stmt.value, ast.Constant) and n.stmt.value.value is None:
             continue
-        txt = norm_stmt(n.stmt.value).replace(" ", "")
+        txt = norm_stmt(deref(wp.node, n.stmt.value)).replace(" ", "")
         g = [norm_stmt(e).replace(" ", "") for e, pol, _ in cfg.guards(n) if pol is True]
         if "os.WIFEXITED(status)" in g:
             seen.add("exit")
@@ -800,7 +819,9 @@ def _r6(ctx, repo, A):
     # alive starts as set(procs), gone as empty set
     a0 = [s for s in wpf.node.body if isinstance(s, ast.Assign)
           and dotted(s.targets[0]) in ("alive", "gone")]
-    vals = {dotted(s.targets[0]): norm_stmt(s.value) for s in a0}
+    vals = {}
+    for s in a0:
+        vals.setdefault(dotted(s.targets[0]), norm_stmt(s.value))      # the FIRST binding
     if vals.get("alive") == "set(procs)" and vals.get("gone") == "set()":
         ctx.ok("C15.R6", "init", sample=vals)
     else:
